@@ -24,6 +24,42 @@ def close(a, b, tol=1e-9):
     return a.shape == b.shape and np.allclose(a, b, rtol=0, atol=tol * (1 + np.max(np.abs(b)) if b.size else tol))
 
 
+TESTER_STATES = ("z0", "z1", "x0", "y0")
+TESTER_POVMS = ("x", "y", "z")
+
+
+def tomography_case(chk, case, there, bad):
+    """a whole tomography through the exchange format: exact statistics in (flat vector, label, shots), the estimate out
+    as a matrix of the other package's convention."""
+    from quara.interface.qiskit import api, conversion as cv
+    c1 = qobjs.csys("qubit", 1)
+    st = [np.array(cv.convert_state_quara_to_qiskit(qobjs.gen("state", n, c1))) for n in TESTER_STATES]
+    pv = [[np.array(m) for m in cv.convert_povm_quara_to_qiskit(qobjs.gen("povm", n, c1))] for n in TESTER_POVMS]
+    flat = np.array([coords.rat(x) for x in case["tomo"]], dtype=float)
+    n = len(flat) // 2
+    for shots_form, shots in (("common", 1000), ("list", [100 * (i + 1) for i in range(n)])):
+        est = api.estimate_standard_qpt_from_qiskit("qubit", 1, st, pv, flat.copy(), shots, [2] * n, "linear", "all")
+        if not close(est, there, 1e-8):
+            bad("tomography:qpt:linear:" + shots_form, "the linear estimate from the exact statistics of the gate, handed over as a flat vector, "
+                "is not the gate's Choi matrix in the other convention (max dev %.3g)" % float(np.max(np.abs(np.asarray(est) - there))))
+    if chk.tier == "thorough" or case["name"] in ("h", "ad"):
+        est = api.estimate_standard_qpt_from_qiskit("qubit", 1, st, pv, flat.copy(), 1000, [2] * n, "least_squares", "all")
+        if not close(est, there, 2e-4):
+            bad("tomography:qpt:least_squares", "the least-squares estimate from the exact statistics of the gate differs from the gate "
+                "(max dev %.3g)" % float(np.max(np.abs(np.asarray(est) - there))))
+    # state tomography of G(x0)
+    flat_s = np.array([coords.rat(x) for x in case["qst"]], dtype=float)
+    rho = cmat(case["rho"])
+    for shots_form, shots in (("common", 1000), ("list", [100, 200, 300])):
+        est = api.estimate_standard_qst_from_qiskit("qubit", 1, pv, flat_s.copy(), shots, [2, 2, 2], "linear", "all")
+        if not close(est, rho, 1e-8):
+            bad("tomography:qst:linear:" + shots_form, "the linear estimate from the exact statistics of G(x0) is not its density matrix")
+    # and the way in: exact statistics produced from the other package's matrices
+    lab, fl = api.generate_empi_dists_from_quara([(1000, flat[2 * i:2 * i + 2].copy()) for i in range(n)])
+    if list(lab) != [2] * n or not close(fl, flat, 1e-12):
+        bad("tomography:label", "generate_empi_dists_from_quara does not return (label, flat vector)")
+
+
 def run(chk):
     from quara.interface.qiskit import conversion as cv
     from quara.objects.gate import Gate
@@ -65,6 +101,8 @@ def run(chk):
                     again = cv.convert_gate_qiskit_to_quara(np.asarray(out), c, d)
                     if not close(again.hs, hs, 1e-8):
                         bad("round_trip", "quara -> qiskit -> quara is not the identity")
+                if case["kind"] == "cat":
+                    tomography_case(chk, case, there, bad)
             except Exception as e:
                 bad("exception", "%r" % e)
             chk.replayed += 1
